@@ -12,6 +12,7 @@ import (
 	"fmt"
 	"os"
 	"regexp"
+	"runtime/debug"
 	"sort"
 	"strings"
 	"sync"
@@ -54,6 +55,7 @@ type HarnessResult struct {
 	ExecMs    int64          `json:"exec_ms"`
 	SolveMs   int64          `json:"solve_ms"`
 	FeasCalls int            `json:"feasibility_calls"`
+	Pruned    int            `json:"pruned_error_paths"`
 	RangeMap  []string       `json:"range_over_map,omitempty"`
 	Notes     []string       `json:"notes,omitempty"`
 }
@@ -82,6 +84,8 @@ func main() {
 	unwind := flag.Int("unwind", 4, "unwinding bound before the solver is asked")
 	dump := flag.String("dump", "", "directory for .smt2 dumps of every query")
 	tags := flag.String("tags", "", "build tags")
+	doInit := flag.Bool("init", false, "execute the harness package's init (needed for level K globals)")
+	labels := flag.String("labels", "", "regexp: only obligations whose label matches are emitted (no-panic is always kept)")
 	flag.Parse()
 	strTheory = *strs == "theory"
 
@@ -120,6 +124,10 @@ func main() {
 	loadMs := time.Since(t0).Milliseconds()
 
 	re := regexp.MustCompile(*run)
+	var labelRe *regexp.Regexp
+	if *labels != "" {
+		labelRe = regexp.MustCompile(*labels)
+	}
 	type hf struct {
 		name string
 		fn   *ssa.Function
@@ -157,6 +165,9 @@ func main() {
 		func() {
 			defer func() {
 				if r := recover(); r != nil {
+					if os.Getenv("GOSYM_DEBUG") != "" {
+						fmt.Fprintf(os.Stderr, "%v\n%s\n", r, debug.Stack())
+					}
 					res.Status = "error"
 					if u, ok := r.(unsupportedErr); ok {
 						res.Error = "unsupported: " + u.msg
@@ -169,23 +180,34 @@ func main() {
 				}
 			}()
 			st := &State{heap: map[*Obj]Value{}, pc: TrueT, assumes: TrueT}
-			st = e.runInit(h.pkg, st)
+			if *doInit {
+				st = e.runInit(h.pkg, st)
+			}
 			_, end := e.call(h.fn, nil, nil, st)
 			finalAssumes := end.assumes
 			// panic obligation
 			add := func(label, kind, expect string, q *Query, model bool, excuse string) {
+				if labelRe != nil && label != "no-panic" && kind != "witness" && !labelRe.MatchString(label) {
+					return
+				}
 				res.Obls = append(res.Obls, OblResult{Label: label, Kind: kind, Expect: expect, Excuse: excuse})
 				jobs = append(jobs, job{h: res, idx: len(res.Obls) - 1, q: q, expect: expect, model: model, nd: e.nondets})
 			}
 			add("no-panic", "panic", "unsat", buildQuery(finalAssumes, e.panicC), true, "")
 			reachSeen := map[[2]int]bool{}
 			for _, a := range e.asserts {
+				if labelRe != nil && a.Kind != "reach" && !labelRe.MatchString(a.Label) {
+					continue
+				}
 				switch a.Kind {
 				case "assert":
 					add(a.Label, "violation", "unsat", buildQuery(a.Assumes, a.PC, Not(a.Cond)), true, "")
 				case "except":
 					add(a.Label, "outside-excuse", "unsat", buildQuery(a.Assumes, a.PC, Not(a.Excused), Not(a.Cond)), true, a.Excuse)
 					add(a.Label, "excused", "any", buildQuery(a.Assumes, a.PC, a.Excused, Not(a.Cond)), true, a.Excuse)
+				case "nopanic":
+					add(a.Label, "panic", "unsat", buildQuery(a.Assumes, Not(a.Cond)), true, "")
+					continue
 				case "reach":
 					add(a.Label, "witness", "sat", buildQuery(a.Assumes, a.PC), true, "")
 					continue
@@ -200,7 +222,7 @@ func main() {
 		res.ExecMs = time.Since(t1).Milliseconds()
 		res.Funcs, res.FnInstrs, res.Stubs = e.funcs, e.fnInstrs, e.stubs
 		res.Instrs, res.Terms, res.Nondets, res.Asserts = e.ninstr, len(termList), len(e.nondets), len(e.asserts)
-		res.FeasCalls, res.RangeMap, res.Notes = e.nfeas, e.rangeMap, e.notes
+		res.FeasCalls, res.RangeMap, res.Notes, res.Pruned = e.nfeas, e.rangeMap, e.notes, e.npruned
 		if e.feas != nil {
 			e.feas.Close()
 		}
